@@ -353,7 +353,7 @@ def case(ctx, rng, idx, state):
 if __name__ == "__main__":
     harness.main(
         PROP, "exploration", case, setup_fn=setup,
-        tiers=dict(quick=dict(cases=96, shards=8, time=150), thorough=dict(cases=1200, shards=16, time=900)),
+        tiers=dict(quick=dict(cases=96, shards=8, time=900), thorough=dict(cases=1200, shards=16, time=3000)),
         rule="generic random Hermitian models (1-4 WFs, with/without AA/SS, centres random/outside/zero), and models with a "
              "real symmetry (simple cubic O_h x T with isotropic real hoppings; real hoppings = T only; H(R)=H(-R) = "
              "inversion only); grids N_i in 1..6 with 2<=Prod(N)<=64 (150 thorough), up to 3 (6) factorisations "
